@@ -208,6 +208,31 @@ static void register_all() {
             "preconditioner/schur_pressure_correction.hpp:schur_pressure_correction::params");
 }
 
+// block value types: several defaults depend on the value type (e.g. aggregation::over_interp = 1.5 for scalars, 2.0 for blocks);
+// the property-tree constructor on an EMPTY tree must give the same parameters as the default constructor for them too
+#include <amgcl/value_type/static_matrix.hpp>
+typedef amgcl::backend::builtin< amgcl::static_matrix<double, 2, 2> > BB2;
+template <class P> static void blk_one(const char *name, std::string &r) {
+    std::string a = Full<P>::dflt(), b = Full<P>::rt(ptree());
+    if (a != b) r += std::string(r.empty() ? "" : " ; ") + name + ": default ctor " + a + " vs empty tree " + b;
+}
+VQ_OP(blockdefaults) { (void)t; std::string r;
+    blk_one<amgcl::coarsening::aggregation<BB2>::params>("coarsening::aggregation", r);
+    blk_one<amgcl::coarsening::smoothed_aggregation<BB2>::params>("coarsening::smoothed_aggregation", r);
+    blk_one<amgcl::coarsening::smoothed_aggr_emin<BB2>::params>("coarsening::smoothed_aggr_emin", r);
+    blk_one<amgcl::relaxation::damped_jacobi<BB2>::params>("relaxation::damped_jacobi", r);
+    blk_one<amgcl::relaxation::chebyshev<BB2>::params>("relaxation::chebyshev", r);
+    blk_one<amgcl::relaxation::gauss_seidel<BB2>::params>("relaxation::gauss_seidel", r);
+    blk_one<amgcl::relaxation::ilu0<BB2>::params>("relaxation::ilu0", r);
+    blk_one<amgcl::relaxation::iluk<BB2>::params>("relaxation::iluk", r);
+    blk_one<amgcl::solver::cg<BB2>::params>("solver::cg", r);
+    blk_one<amgcl::solver::bicgstab<BB2>::params>("solver::bicgstab", r);
+    blk_one<amgcl::solver::gmres<BB2>::params>("solver::gmres", r);
+    blk_one<amgcl::solver::idrs<BB2>::params>("solver::idrs", r);
+    blk_one<amgcl::amg<BB2, amgcl::coarsening::aggregation, amgcl::relaxation::damped_jacobi>::params>("amg<aggregation, damped_jacobi>", r);
+    blk_one<amgcl::amg<BB2, amgcl::coarsening::smoothed_aggregation, amgcl::relaxation::ilu0>::params>("amg<smoothed_aggregation, ilu0>", r);
+    return r.empty() ? "OK" : "DIFF " + r;
+}
 VQ_OP(ids) { (void)t; std::string r; for (auto &e : structs()) r += (r.empty() ? "" : " ") + e.first; return r; }
 VQ_OP(defaults) {
     auto it = structs().find(t.s());
